@@ -187,7 +187,7 @@ func c07runItem(vm *ugo.VM, t c07term, bc *ugo.Bytecode) (kind string) {
 	rec := &canon.Recorder{}
 	var started, release atomic.Bool
 	g := ugo.Map{"L": rec.Func(), "G": ugo.Int(3),
-		"CALL":    c07callGlobal(),
+		"CALL": c07callGlobal(),
 		"KEEP": &ugo.Function{Name: "KEEP", Value: func(a ...ugo.Object) (ugo.Object, error) {
 			for _, o := range a {
 				c07kept = append(c07kept, c07keptValue{o, canon.Value(o)})
